@@ -98,7 +98,7 @@ def main(sub):
     bad = [k for k in a if not (a[k] == b.get(k) == c.get(k))]
     print(f"selftest determinism: {len(a)} units x 3 passes (16 workers, 4 workers, fresh interpreter PYTHONHASHSEED=12345, 11 workers); mismatches={len(bad)}; wall={time.time() - t0:.0f}s")
     summary = {"units": len(a), "mismatches": bad[:20], "wall_s": round(time.time() - t0, 1), "master": master}
-    core.dump_json(os.path.join(core.VERIF_DIR, "evidence", "_selftest_determinism.json"), summary)
+    core.dump_json(os.path.join(core.VERIF_DIR, "sensitivity", "selftest_determinism.json"), summary)
     if bad:
         for k in bad[:10]:
             print("  MISMATCH", k, a[k][:16], b.get(k, "?")[:16], c.get(k, "?")[:16])
